@@ -10,10 +10,13 @@
     stop setting and random oracle.
   * `C19_cap_is_prefix`: with a binding cap the result is the prefix of the uncapped result.
   * `C19_time_never_backwards`: the event `pick_next` returns is never before the clock.
-  * `C19_no_assertion_fires`: whatever the inputs, a run never ends in one of the five `BUG:`
-    assertions, in "time moves backwards", in exhausted `pick_next` fuel or in divergence; the
-    only possible faults are environmental (checked duration arithmetic, unwraps, a framework
-    panic, an out-of-range machine id, an empty queue, invalid machines, `pps as u32 == 0`).
+  * `C19_faults_classified`, `C19_no_assertion_fires`: whatever the inputs, a run never ends in
+    one of the five `BUG:` assertions, in "time moves backwards", in exhausted `pick_next` fuel
+    or in divergence, and for packets-per-second limits >= 1 not in a division by zero either;
+    the only possible faults are environmental (checked duration arithmetic, unwraps, a framework
+    panic, an out-of-range machine id, an empty queue, invalid machines).
+  * `C19_divzero_only_for_zero`: regression of F5 — the bottleneck constructor fails exactly for
+    the limit 0.
   * `C19_no_bug_no_internal`, `C19_no_bug_no_action`, `C19_no_divergence`: the per-branch facts
     behind it.
   * `C19_function_of_inputs`: the run is a function of (machines, queue, args, oracle) and, when
@@ -124,14 +127,16 @@ theorem C19_no_bug_no_action (st : St σ) (s : Nat) (h : pickDecide st = .ok (.a
 theorem C19_no_divergence (st : St σ) (h : pickDecide st = .ok .agg) : pickAgg st ≠ .error .diverge :=
   pickAgg_no_diverge h
 
-/-- **No internal consistency assertion ever fires.**  For every machine set, queue, argument
-    record and oracle: if the run ends in a fault at all, the fault is an environmental one
-    (checked `Duration` arithmetic, an `unwrap`, a panic inside the framework, a machine id out
-    of range, an empty queue, invalid machines / fractions, `pps as u32 == 0`) — never one of the
-    five `BUG:` assertions, never "next event moves time backwards", never exhausted `pick_next`
-    fuel, never divergence. -/
-theorem C19_no_assertion_fires (budget : Nat) (mc ms : List Machine) (sq : SimQueue) (a : Args) (orc : σ)
-    (f : SimFault) (h : (simAdvanced ρ budget mc ms sq a orc).stop = .fault f) : f.isBug = false := by
+/-- **Every fault is environmental, or the excluded limit 0.**  For every machine set, queue,
+    argument record and oracle: if the run ends in a fault at all, the fault is an environmental
+    one (checked `Duration` arithmetic, an `unwrap`, a panic inside the framework, a machine id
+    out of range, an empty queue, invalid machines / fractions) — never one of the five `BUG:`
+    assertions, never "next event moves time backwards", never exhausted `pick_next` fuel, never
+    divergence — or it is the division by zero of `NetworkBottleneck::new`, and then the
+    packets-per-second limit is 0. -/
+theorem C19_faults_classified (budget : Nat) (mc ms : List Machine) (sq : SimQueue) (a : Args) (orc : σ)
+    (f : SimFault) (h : (simAdvanced ρ budget mc ms sq a orc).stop = .fault f) :
+    f.isBug = false ∨ (f = .divZero ∧ effPps a.network sq.maxPps = 0) := by
   unfold simAdvanced at h
   have hinit := initState_total ρ (mc := mc) (ms := ms) (sq := sq) (a := a) (orc := orc)
   cases hi : initState ρ mc ms sq a orc with
@@ -141,7 +146,40 @@ theorem C19_no_assertion_fires (budget : Nat) (mc ms : List Machine) (sq : SimQu
     exact hinit.1 _ hi
   | ok st =>
     simp only [hi, finish_stop] at h
-    exact loop_total ρ a (loopFuel a budget) st 0 0 (hinit.2 st hi) f h
+    exact Or.inl (loop_total ρ a (loopFuel a budget) st 0 0 (hinit.2 st hi) f h)
+
+/-- **No internal consistency assertion ever fires, no division by zero** for packets-per-second
+    limits >= 1 (the property's range; a limit beyond `u32::MAX` saturates): whatever the
+    inputs, a fault is never a `BUG:` assertion, backwards time, exhausted fuel, divergence or
+    the division by zero of `NetworkBottleneck::new`. -/
+theorem C19_no_assertion_fires (budget : Nat) (mc ms : List Machine) (sq : SimQueue) (a : Args) (orc : σ)
+    (hpps : 1 ≤ effPps a.network sq.maxPps)
+    (f : SimFault) (h : (simAdvanced ρ budget mc ms sq a orc).stop = .fault f) : f.isBug = false := by
+  rcases C19_faults_classified ρ budget mc ms sq a orc f h with h1 | ⟨_, h2⟩
+  · exact h1
+  · omega
+
+/-- **Regression of F5**: `NetworkBottleneck::new` divides by zero only for a limit of 0; every
+    limit >= 1 — including the multiples of 2^32 that used to be truncated to 0 — is accepted. -/
+theorem C19_divzero_only_for_zero (net : Network) (window : Nat) (q : Option Nat) :
+    (∃ b, Bottleneck.new net window q = .ok b) ↔ 1 ≤ effPps net q := by
+  unfold Bottleneck.new effPps
+  simp only []
+  have h32 : (2 : Nat) ^ 32 - 1 = 4294967295 := by decide
+  constructor
+  · rintro ⟨b, hb⟩
+    split at hb
+    · cases hb
+    · rename_i hz; omega
+  · intro h
+    have hz : ¬ min (net.pps.getD (q.getD usizeMax)) (2 ^ 32 - 1) = 0 := by omega
+    simp only [hz, if_false]
+    exact ⟨_, rfl⟩
+
+/-- the former failing point: a limit of exactly 2^32 is accepted and saturates to `u32::MAX` -/
+example : (match Bottleneck.new ⟨0, some (2 ^ 32)⟩ 1000000000 none with
+    | .ok b => b.ppsAddedDelay
+    | .error _ => 12345) = 1000000000 / 4294967295 := by decide
 
 /-- **Function of the inputs.**  With an iteration cap the result does not depend on the model's
     own loop budget: the run is determined by machines, queue, arguments and the oracle alone. -/
